@@ -1408,7 +1408,7 @@ func (h *Hist) OpAdmin(r adminReq) {
 			cls = 3
 		case jerr.Message == cashu.UnknownKeysetErr.Error():
 			cls = 4
-		case strings.Contains(jerr.Message, "unable to get") || strings.Contains(jerr.Message, "sql") || strings.Contains(jerr.Message, "database"):
+		case strings.Contains(jerr.Message, "unable to get") || strings.Contains(jerr.Message, "sql") || strings.Contains(jerr.Message, "database") || strings.Contains(jerr.Message, "integer overflow"):
 			cls = 5
 		}
 		out = L(A(0), A(int64(jerr.Code)), A(cls))
